@@ -130,6 +130,9 @@ func replayPatch(p *Prog, r *Result, patch string) (applied bool, fired []string
 	return applied, fired, ""
 }
 
+// neutralCap bounds the number of behaviour-preserving changes replayed for one property in one thorough run.
+const neutralCap = 8
+
 // neutralTest replays the kept behaviour-preserving changes (<verif>/neutral/<name>/patch.diff) that touch a file in which
 // this property has obligations; the rules must stay silent on each. An alarm here is a weakness of the checker (printed as
 // SELFTEST-FALSE-ALARM and recorded in the evidence), never a VIOLATION about the repository.
@@ -155,6 +158,10 @@ func neutralTest(p *Prog, r *Result, verifDir string) {
 	}
 	var outs []outcome
 	alarms := 0
+	// the changes that touch this property's files; at most neutralCap of them are replayed per run (each replay loads and
+	// type-checks a whole scratch tree), chosen round-robin over the authors' batches in name order, so that every batch
+	// and area is represented; tools/neutral_all.sh runs every check on every kept change
+	var relevant []string
 	for _, pf := range patches {
 		b, err := os.ReadFile(pf)
 		if err != nil {
@@ -166,9 +173,43 @@ func neutralTest(p *Prog, r *Result, verifDir string) {
 				touches = true
 			}
 		}
-		if !touches {
-			continue
+		if touches {
+			relevant = append(relevant, pf)
 		}
+	}
+	nRelevant := len(relevant)
+	if len(relevant) > neutralCap {
+		byBatch := map[string][]string{}
+		var batches []string
+		for _, pf := range relevant {
+			b := filepath.Base(filepath.Dir(pf))
+			if i := strings.Index(b, "-"); i > 0 {
+				b = b[:i]
+			}
+			if _, ok := byBatch[b]; !ok {
+				batches = append(batches, b)
+			}
+			byBatch[b] = append(byBatch[b], pf)
+		}
+		sort.Strings(batches)
+		var pick []string
+		for i := 0; len(pick) < neutralCap; i++ {
+			progressed := false
+			for _, b := range batches {
+				if i < len(byBatch[b]) && len(pick) < neutralCap {
+					pick = append(pick, byBatch[b][i])
+					progressed = true
+				}
+			}
+			if !progressed {
+				break
+			}
+		}
+		sort.Strings(pick)
+		relevant = pick
+	}
+	r.Analysed["selftest_neutral_relevant"] = nRelevant
+	for _, pf := range relevant {
 		o := outcome{Name: filepath.Base(filepath.Dir(pf))}
 		o.Applied, o.Alarms, o.Note = replayPatch(p, r, pf)
 		if o.Applied && (len(o.Alarms) > 0 || o.Note != "") {
